@@ -44,6 +44,11 @@ type tcase struct {
 	ID    string    `json:"id"`
 	Files []srcFile `json:"files"`
 	Later []srcFile `json:"later,omitempty"`
+	// GoOnly: a case the memo-free model cannot evaluate in reasonable time (its cost is the size
+	// of the unfolded derivation, exponential for a chain of unions that name the previous
+	// typedef twice); the Go side must finish, not crash, and report exactly ExpectErrors.
+	GoOnly       bool     `json:"go_only,omitempty"`
+	ExpectErrors []string `json:"expect_process_errors,omitempty"`
 }
 
 func (c tcase) all() []srcFile {
@@ -491,13 +496,26 @@ func errClass(line string) string {
 // errors) but not on the rest of the list: which statement of the cycle is named, and which other
 // errors were met on the way, depends on where the memoising traversal entered the cycle first.
 // A list holding a cycle error is therefore compared as just that.
+//
+// Otherwise repeated records are dropped (first occurrences stay, in order): a union keeps one
+// copy of each member error, by pointer in Go and by (position, class) in the model, which can
+// differ only in how often a record without a position of its own is repeated (see
+// Goyang.Model.Types.stepMembers); the property does not speak about multiplicity.
 func canonErrs(es []string) []string {
 	for _, e := range es {
 		if errClass(e) == "cycle" {
 			return []string{"*:cycle"}
 		}
 	}
-	return es
+	out := make([]string, 0, len(es))
+	seen := map[string]bool{}
+	for _, e := range es {
+		if !seen[e] {
+			seen[e] = true
+			out = append(out, e)
+		}
+	}
+	return out
 }
 
 func asSet(l []string) []string {
@@ -777,6 +795,10 @@ func main() {
 		sreqs := make([]string, len(batch))
 		wireErr := make([]error, len(batch))
 		for i, c := range batch {
+			if c.GoOnly {
+				reqs[i], sreqs[i] = "skip", "skip"
+				continue
+			}
 			w, err := wire(c)
 			wireErr[i] = err
 			reqs[i] = "types " + w
@@ -798,6 +820,27 @@ func main() {
 		}
 		for i, c := range batch {
 			g := gos[i]
+			if c.GoOnly {
+				status["go-only"]++
+				what := ""
+				switch {
+				case g.Panic != "":
+					what = "goyang crashed or hung: " + g.Panic
+				case g.ParseErr != "":
+					what = "goyang rejected the files: " + g.ParseErr
+				case !sameList(asSet(g.P1), asSet(c.ExpectErrors)) || !sameList(g.P1, g.P2):
+					what = fmt.Sprintf("Process() errors: go %v (second run %v), expected %v", head(g.P1, 8), head(g.P2, 8), c.ExpectErrors)
+				}
+				if what != "" {
+					kind := "spec"
+					if g.Panic != "" {
+						kind = "crash"
+					}
+					g.Leaves, g.Ast = nil, nil
+					res.AddDisagreement(lib.Disagreement{Kind: kind, Input: c, Go: g, SpecVerdict: "violates", What: trunc(what, 1500), Replay: c})
+				}
+				continue
+			}
 			if wireErr[i] != nil {
 				// the text does not parse: outside the resolver model; the Go side must agree
 				status["unparseable"]++
@@ -948,6 +991,15 @@ func replay(f *lib.Flags) {
 	c := p.Disagreement.Replay
 	gs := runAllGo([]tcase{c}, 1)
 	g := gs[0]
+	if c.GoOnly {
+		fmt.Printf("go-only case: Process() errors %v (second run %v), expected %v, crash %q\n", g.P1, g.P2, c.ExpectErrors, g.Panic)
+		if g.Panic != "" || g.ParseErr != "" || !sameList(asSet(g.P1), asSet(c.ExpectErrors)) || !sameList(g.P1, g.P2) {
+			fmt.Println("spec verdict: violates")
+			os.Exit(1)
+		}
+		fmt.Println("spec verdict: holds")
+		return
+	}
 	d, err := lib.StartDriver(f.Driver)
 	if err != nil {
 		lib.Fatal("%v", err)
